@@ -194,7 +194,8 @@ def run_str(ctx, spec):
         p10 = Fraction(10) ** n_dec
         y = T * p10
         fr = y - math.floor(y)
-        if abs(fr - Fraction(1, 2)) > Fraction(1, 10 ** 3) and n_dec <= 9:
+        # (binary64 noise of the split is up to ~2e-10 arcsec, i.e. 2e-10 * 10**n units of the last decimal)
+        if abs(fr - Fraction(1, 2)) > max(Fraction(1, 10 ** 3), Fraction(2, 10 ** 10) * p10) and n_dec <= 9:
             k = math.floor(y) + (1 if fr > Fraction(1, 2) else 0)
             exp = (Fraction(k) / p10 / 3600) * (-1 if V < 0 else 1)
             ctx.predicate('read_back_equals_value_rounded_at_n', cdev(val, exp, modulus) <= Fraction(1, 10 ** 12) / 3600, spec,
